@@ -1,7 +1,10 @@
 import Verif.Properties.C13
+import Verif.Properties.C12
 
 #print axioms C13.patterns_exact
 #print axioms C13.enums_exact
 #print axioms C13.allPatterns_exact
 #print axioms C13.allEnums_exact
 #print axioms C13.default_header_enum_needed
+#print axioms C13.schema_pattern_keys_distinct
+#print axioms C13.schema_enum_keys_distinct
